@@ -23,6 +23,7 @@ import WuffsVerif.Proof.Flate.FixedCut2
 import WuffsVerif.Proof.Flate.Assembly
 import WuffsVerif.Proof.Flate.CutAll
 import WuffsVerif.Proof.Flate.Whole2
+import WuffsVerif.Proof.Flate.ZlibAll
 
 namespace WuffsVerif.Props.C16
 open WuffsVerif.Flate WuffsVerif.Flate.Cut WuffsVerif.Flate.Spec
@@ -412,7 +413,7 @@ theorem cut_prefix_fixed_block_partial (w : Bool) (s T : Bytes) (n0 : Nat) (limi
 
 /-- **cut_prefix for every valid stream of stored and fixed-Huffman blocks** — any number of blocks in any
 order, at any bit alignment (`_partial`: dynamic blocks are missing; `hnd` says that no block the spec
-decoder reaches — `RReach s n p out`: after `n` complete non-final blocks it stands at bit `p` — has
+decoder reaches — `RReach #[] s n p out`: after `n` complete non-final blocks it stands at bit `p` — has
 block type 2).  For every limit and with or without a writer, a successful `Cut` yields a complete
 DEFLATE stream in the first `encodedLen` bytes of the buffer that decodes to exactly the first
 `decodedLen` bytes of the original output, which is also what the writer receives.  The proof is the
@@ -423,7 +424,7 @@ end-of-block code at the last checkpoint — or just before it (the previous blo
 `cutSingleBlock` re-encodes the beginning; `Cut.good_final` replays the kept blocks on the cut buffer. -/
 theorem cut_prefix_nodynamic_partial (w : Bool) (s T : Bytes) (n0 : Nat) (limit : Int) (r : CutResult)
     (hs : Spec.inflate s = some (T, n0)) (hT : T.size < 2147483648)
-    (hnd : ∀ n p out, Cut.RReach s n p out → Spec.bitsLE s (p + 1) 2 ≠ 2)
+    (hnd : ∀ n p out, Cut.RReach #[] s n p out → Spec.bitsLE s (p + 1) 2 ≠ 2)
     (h : Cut.Cut w s limit = .ok r) :
     Spec.inflate (r.encoded.extract 0 r.encodedLen) = some (T.extract 0 r.decodedLen, r.encodedLen) ∧
     r.decodedLen ≤ T.size ∧ (w = true → r.written = T.extract 0 r.decodedLen) :=
@@ -458,8 +459,8 @@ theorem cut_prefix (w : Bool) (s T : Bytes) (n0 : Nat) (limit : Int) (r : CutRes
   let h3 := Cut.Cut_all w s T n0 limit r hs hT h
   ⟨h3.1, h3.2.1, fun a b => Cut.Cut_whole w s T n0 limit r hs hT h a b, h3.2.2⟩
 
-/-- **zlibcut_prefix for zlib streams without a preset dictionary** (`_partial`: FDICT streams are
-missing — there `flatecut.Cut` re-decodes the data without the dictionary): for every valid zlib stream
+/-- **zlibcut_prefix for zlib streams without a preset dictionary** (the case with FDICT is
+`zlibcut_prefix_fdict`, both together `zlibcut_prefix`; the name is kept from round 2): for every valid zlib stream
 `s` (RFC 1950 header, DEFLATE data, Adler-32) whose FDICT bit is clear and every limit, a successful
 `zlibcut.Cut` yields, in the first `encodedLen` bytes of the buffer, a complete valid zlib stream — the
 same header, the DEFLATE data as cut by `flatecut.Cut`, and the big-endian Adler-32 of the decoded prefix
@@ -470,7 +471,8 @@ theorem zlibcut_prefix_partial (s T : Bytes) (n : Nat) (limit : Int) (r : CutRes
     (hT : T.size < 2147483648) (h : ZlibCut.Cut s limit = .ok r) :
     Spec.zlibDecode #[] (r.encoded.extract 0 r.encodedLen) = some (T.extract 0 r.decodedLen, r.encodedLen) ∧
     r.decodedLen ≤ T.size ∧ r.written = T.extract 0 r.decodedLen :=
-  ZlibCut.Cut_prefix s T n limit r hz hnd hT h
+  let h4 := ZlibCut.Cut_prefix s T n limit r hz hnd hT h
+  ⟨h4.1, h4.2.1, h4.2.2.1⟩
 
 /-- The spec decoder only looks at the bits of the stream: a buffer with the same bytes up to the end of
 the final block decodes to the same output (used for the zlib trailer and for the cut buffers). -/
@@ -484,5 +486,90 @@ example : Spec.bitAt #[0x4b, 0x04, 0x00] 0 = 1 ∧ Spec.bitsLE #[0x4b, 0x04, 0x0
 
 set_option maxRecDepth 100000 in
 example : Spec.inflate #[0x4b, 0x04, 0x00] = some (#[0x61], 3) := by decide +kernel
+
+
+/-! ## 7. Streams with a preset dictionary (round 3)
+
+`flatecut.Cut` walks the blocks without ever looking at the decoded bytes, so it does not need the
+dictionary; but `cutSingleBlock` and `Cut(w != nil)` re-decode with `flate.NewReader`, i.e. WITHOUT the
+dictionary.  `zlibcut.Cut` always passes a writer (the Adler-32 hasher).  The theorems below say that this
+is sound: whenever `Cut` succeeds, the result is right *with respect to the dictionary*; when the kept part
+refers to the dictionary, the re-decoding fails and `Cut` returns that error (allowed by the property,
+which speaks about successful cuts). -/
+
+/-- The spec decoder and preset dictionaries: a stream that decodes without a dictionary decodes to the
+same bytes with any dictionary in front (distances never reach into it). -/
+theorem inflate_dict_irrelevant (dict s T : Bytes) (n : Nat) (h : Spec.inflate s = some (T, n)) :
+    Spec.inflateDict dict s = some (T, n) := by
+  obtain ⟨pE, hb, hn⟩ := Cut.inflate_blocks s T n h
+  have hd := Spec.blocks_dict (Cut.truncDict dict) s none 0 _ _ _ _ _ _ hb (by simp)
+  rw [Nat.zero_add, Array.append_empty, Spec.blocks_lo _ _ 0] at hd
+  exact (Cut.inflateDict_blocks dict s T n).mpr ⟨pE, hd, hn⟩
+
+/-- The run of the spec decoder WITH a dictionary `D` in front of its output reproduces the run without
+it, unless that run ends in `corrupt` — for every stream, every output cap, every starting point.  This is
+what makes the dictionary-less re-decoding inside `flatecut` sound. -/
+theorem blocks_dict_mono (D s : Bytes) (cap : Option Nat) (lo fuel p : Nat) (out : Bytes) (st : Spec.Status)
+    (p' : Nat) (out' : Bytes) (h : Spec.blocks s cap lo fuel p out = ⟨st, p', out'⟩) (hst : st ≠ .corrupt) :
+    Spec.blocks s cap (lo + D.size) fuel p (D ++ out) = ⟨st, p', D ++ out'⟩ :=
+  Spec.blocks_dict D s cap lo fuel p out st p' out' h hst
+
+/-- **cut_prefix for every DEFLATE stream that is valid with a preset dictionary** (`flate.NewReaderDict`;
+the payload of a zlib stream with FDICT): `s` is any byte string that the spec decoder, given `dict`, maps
+to `T`.  Whenever `flatecut.Cut` succeeds, the first `encodedLen` bytes of the modified buffer are a complete
+DEFLATE stream that, decoded with the same dictionary, yields exactly the first `decodedLen` bytes of `T`;
+`decodedLen ≤ |T|`; the writer receives those bytes.  (`dict = #[]` is `cut_prefix` again; the side
+condition is 32 KiB stronger because the dictionary sits in front of the decoder's output.)
+Proof: the whole simulation of round 2 (`cutLoop_walk`, `BlockSim`, `RReach`, …) generalised from
+`decodedLen = |out|` to `decodedLen + |D| = |out|`, `cutSingleBlock_good_dict` (the dictionary-less inflate
+either fails or is the run with the dictionary: `blocks_dict_mono`, `blocks_corrupt_lt`), `redecode_nodict`. -/
+theorem cut_prefix_dict (w : Bool) (dict s T : Bytes) (n0 : Nat) (limit : Int) (r : CutResult)
+    (hs : Spec.inflateDict dict s = some (T, n0)) (hT : T.size + 32768 < 2147483648)
+    (h : Cut.Cut w s limit = .ok r) :
+    Spec.inflateDict dict (r.encoded.extract 0 r.encodedLen) = some (T.extract 0 r.decodedLen, r.encodedLen) ∧
+    r.decodedLen ≤ T.size ∧ (w = true → r.written = T.extract 0 r.decodedLen) :=
+  Cut.Cut_all_dict w dict s T n0 limit r hs hT h
+
+/-- **zlibcut_prefix for zlib streams WITH a preset dictionary**: for every valid zlib stream `s` whose FDICT
+bit is set (RFC 1950 header, DICTID = Adler-32 of `dict`, DEFLATE data that is valid with `dict`, Adler-32)
+and every limit, a successful `zlibcut.Cut` yields, in the first `encodedLen` bytes of the buffer, a
+complete valid zlib stream — same header and DICTID, the DEFLATE data as cut by `flatecut.Cut`, the
+big-endian Adler-32 of the decoded prefix — that decodes WITH THE SAME DICTIONARY to exactly the first
+`decodedLen` bytes of the original decompression; the writer receives those bytes. -/
+theorem zlibcut_prefix_fdict (dict s T : Bytes) (n : Nat) (limit : Int) (r : CutResult)
+    (hz : Spec.zlibDecode dict s = some (T, n)) (hd : (s.getD 1 0).toNat / 32 % 2 = 1)
+    (hT : T.size + 32768 < 2147483648) (h : ZlibCut.Cut s limit = .ok r) :
+    Spec.zlibDecode dict (r.encoded.extract 0 r.encodedLen) = some (T.extract 0 r.decodedLen, r.encodedLen) ∧
+    r.decodedLen ≤ T.size ∧ r.written = T.extract 0 r.decodedLen :=
+  let h4 := ZlibCut.Cut_prefix_fdict dict s T n limit r hz hd hT h
+  ⟨h4.1, h4.2.1, h4.2.2.1⟩
+
+/-- **zlibcut_prefix — THE property for EVERY valid zlib stream**, with or without a preset dictionary
+(`dict` is not looked at when the FDICT bit is clear), every limit.  (`encodedLen ≤ limit` and `≤ len`:
+`zlibcut_lengths_in_bounds`; no panic on arbitrary bytes: `zlibcut_never_panics`.) -/
+theorem zlibcut_prefix (dict s T : Bytes) (n : Nat) (limit : Int) (r : CutResult)
+    (hz : Spec.zlibDecode dict s = some (T, n)) (hT : T.size + 32768 < 2147483648)
+    (h : ZlibCut.Cut s limit = .ok r) :
+    Spec.zlibDecode dict (r.encoded.extract 0 r.encodedLen) = some (T.extract 0 r.decodedLen, r.encodedLen) ∧
+    r.decodedLen ≤ T.size ∧ r.written = T.extract 0 r.decodedLen :=
+  ZlibCut.Cut_prefix_all dict s T n limit r hz hT h
+
+/-- `zlibcut.Cut` keeps the zlib header (CMF, FLG — hence the FDICT bit). -/
+theorem zlibcut_keeps_header_partial (dict s T : Bytes) (n : Nat) (limit : Int) (r : CutResult)
+    (hz : Spec.zlibDecode dict s = some (T, n)) (hd : (s.getD 1 0).toNat / 32 % 2 = 1)
+    (hT : T.size + 32768 < 2147483648) (h : ZlibCut.Cut s limit = .ok r) :
+    (r.encoded.extract 0 r.encodedLen).getD 1 0 = s.getD 1 0 :=
+  (ZlibCut.Cut_prefix_fdict dict s T n limit r hz hd hT h).2.2.2
+
+/-- non-vacuity: "0123456789hello wuffs" deflated by zlib with the preset dictionary "hello wuffs" (25
+bytes, FDICT set, the tail is a match into the dictionary) meets the hypotheses of `zlibcut_prefix_fdict`. -/
+def exDict : Bytes := #[0x68, 0x65, 0x6c, 0x6c, 0x6f, 0x20, 0x77, 0x75, 0x66, 0x66, 0x73]
+def exFdict : Bytes := #[0x78, 0xf9, 0x1a, 0x02, 0x04, 0x60, 0x33, 0x30, 0x34, 0x32, 0x36, 0x31, 0x35, 0x33, 0xb7,
+  0xb0, 0xcc, 0x40, 0x08, 0x02, 0x00, 0x3b, 0x90, 0x06, 0x6d]
+
+example : (exFdict.getD 1 0).toNat / 32 % 2 = 1 := by decide
+
+set_option maxRecDepth 1000000 in
+example : (Spec.zlibDecode exDict exFdict).map (fun x => (x.1.size, x.2)) = some (21, 25) := by decide +kernel
 
 end WuffsVerif.Props.C16
